@@ -105,10 +105,15 @@ def env_fields(seq, vals, ion='p', mono=True, isotope=0, use_iso=False, charge=N
     els = {'n'}
     for c in comps:
         els |= set(map(str, c))
-    els |= set(labels)
+    comps += [constants.NTERM_COMPOSITION, constants.CTERM_COMPOSITION]
+    for c in comps[-2:]:
+        els |= set(map(str, c))
+    # the keys of EM are also the labels the model's parse_isotope_mods accepts
+    els |= {x for x in labels if isinstance(x, str) and x in constants.ISOTOPIC_ATOMIC_MASSES}
     em = ','.join(f'{annot.esc(e)}:{rat(chem_util.chem_mass({e: 1}, monoisotopic=mono))}' for e in sorted(els))
     flg = f'{isotope},{int(ion == "p")},{int(use_iso)},{quirks[0]},{quirks[1]}'
-    return [res, ','.join(mu), rat(adj), aac, ';'.join(mr), show_comp(ionc), show_comp(chg), em, flg]
+    return [res, ','.join(mu), rat(adj), aac, ';'.join(mr), show_comp(ionc), show_comp(chg), em, flg,
+            show_comp(constants.NTERM_COMPOSITION), show_comp(constants.CTERM_COMPOSITION)]
 
 
 def vals_from_reply(reply):
